@@ -25,10 +25,15 @@
 (*   conn    "up"/"down": what the environment knows about the connection   *)
 (*   fault   the connection was disturbed since it was last reported up     *)
 (*   mustClose  the connection was lost while the stream was open           *)
+(*   cause   number of things that happened that may end a stream (each is   *)
+(*           used up by one Closed):                                        *)
+(*           a close command of either user, a fault of the connection, a   *)
+(*           clogged or oversize send of either side, a panic of the remote *)
+(*   ucl     Closed events seen for which no such cause is known (yet)      *)
 (***************************************************************************)
 EXTENDS Naturals, Sequences, FiniteSets, TLC
 
-PeerInit == [open |-> FALSE, asked |-> FALSE, acc |-> FALSE, ownopen |-> FALSE, nop |-> 0, nacc |-> 0, nans |-> 0, want |-> FALSE,
+PeerInit == [open |-> FALSE, asked |-> FALSE, acc |-> FALSE, ownopen |-> FALSE, nop |-> 0, nacc |-> 0, nans |-> 0, cause |-> 0, ucl |-> 0, lost |-> FALSE, want |-> FALSE,
              conn |-> "down", fault |-> FALSE, mustClose |-> FALSE, nopen |-> 0, nclosed |-> 0]
 
 MonInit(peers, auto) == [ps |-> [p \in peers |-> PeerInit], auto |-> auto, dead |-> FALSE, bad |-> "", badp |-> ""]
@@ -56,7 +61,9 @@ MonOpen(M, p, r) ==
        [M EXCEPT !.ps[p].ownopen = TRUE, !.ps[p].nop = s.nop + 1, !.ps[p].want = s.want \/ clean]
 
 \* close_substream(p): r = "sent" | "noop"
-MonClose(M, p, r) == M
+\* every cause accounts for one Closed (commands are handled with a lag: a close command may end a later stream)
+Cause(M, p) == IF M.ps[p].ucl > 0 THEN [M EXCEPT !.ps[p].ucl = @ - 1] ELSE [M EXCEPT !.ps[p].cause = @ + 1]
+MonClose(M, p, r) == IF r = "sent" THEN Cause(M, p) ELSE M
 
 \* send_validation_result(p, v): r = "sent" (a validation was pending in the handle) | "noop"
 MonVal(M, p, v, r) ==
@@ -72,9 +79,12 @@ MonVal(M, p, v, r) ==
 \* The result of an asynchronous send is logged when the call completes (possibly after a Closed
 \* was pulled), so only the synchronous mode is judged here.  A clogged synchronous channel makes the
 \* handle force-close the connection: an open stream must then be reported closed.
-MonSend(M, p, m, r) ==
+\* over = the payload is larger than the configured maximum (accepted into the channel, it ends the stream)
+MonSend(M, p, m, r, over) ==
   IF m = "s" /\ r = "ok" /\ ~M.ps[p].open THEN Fail(M, p, "notification sent outside an open stream")
-  ELSE IF m = "s" /\ r = "clogged" THEN [M EXCEPT !.ps[p].mustClose = @ \/ M.ps[p].open, !.ps[p].fault = TRUE, !.ps[p].want = FALSE]
+  ELSE IF m = "s" /\ r = "clogged" THEN [M EXCEPT !.ps[p].mustClose = @ \/ M.ps[p].open, !.ps[p].fault = TRUE, !.ps[p].want = FALSE, !.ps[p].ucl = 0,
+                                                   !.ps[p].lost = @ \/ M.ps[p].open \/ M.ps[p].acc \/ M.ps[p].ownopen]
+  ELSE IF over THEN Cause(M, p)
   ELSE M
 
 (* ---- events ------------------------------------------------------------ *)
@@ -91,11 +101,19 @@ MonEvent(M, p, k) ==
     [] k = "opened" ->
          IF s.open THEN Fail(M, p, "stream opened twice without a close in between")
          ELSE IF ~Consent(M, p) THEN Fail([M EXCEPT !.ps[p].open = TRUE], p, "inbound stream opened without the user's acceptance")
+         \* (a stream reported while the connection is known to be disturbed is lost with it)
          ELSE [M EXCEPT !.ps[p].open = TRUE, !.ps[p].acc = FALSE, !.ps[p].ownopen = FALSE, !.ps[p].nans = s.nans + 1, !.ps[p].want = FALSE,
+                        !.ps[p].lost = s.lost \/ s.fault,
                         !.ps[p].nopen = s.nopen + 1]
     [] k = "closed" ->
          IF ~s.open THEN Fail(M, p, "stream closed while not open")
-         ELSE [M EXCEPT !.ps[p].open = FALSE, !.ps[p].mustClose = FALSE, !.ps[p].nclosed = s.nclosed + 1]
+         \* a stream ends only for a reason: judged at quiescence (the reason may be logged after the event)
+         ELSE [M EXCEPT !.ps[p].open = FALSE, !.ps[p].mustClose = FALSE, !.ps[p].nclosed = s.nclosed + 1,
+                        \* (a cause may be logged before the Opened of the stream it ends is read, so it is kept until
+                        \*  a Closed consumes it; a disturbed connection explains every Closed until it is reported up again)
+                        !.ps[p].ucl = IF s.fault \/ s.mustClose \/ s.lost \/ s.cause > 0 THEN s.ucl ELSE s.ucl + 1,
+                        !.ps[p].cause = IF ~(s.fault \/ s.mustClose \/ s.lost) /\ s.cause > 0 THEN s.cause - 1 ELSE s.cause,
+                        !.ps[p].lost = FALSE]
     [] k = "openfail" ->
          IF s.open THEN Fail(M, p, "open failure while the stream is open")
          \* with an own open outstanding the failure is taken as its answer (an open that arrives while an
@@ -114,15 +132,23 @@ MonEvent(M, p, k) ==
 \* k = "up": the node reported the connection established; "down": reported closed;
 \* "cut": the environment destroyed the link; "stall": the environment starved tasks of the node
 \* for long (timeouts may fire): both disturb the obligations
+Doomed(s) == s.open \/ s.acc \/ s.ownopen
 MonEnv(M, p, k) ==
   LET s == M.ps[p] IN
   CASE k = "up" -> [M EXCEPT !.ps[p].conn = "up", !.ps[p].fault = FALSE]
     \* "down" is reported by the node's own event loop, unordered with respect to the handle's
     \* events (a later stream may already be open), so only a cut made by the environment itself
     \* obliges the stream that is open at that moment to be reported closed
-    [] k = "down" -> [M EXCEPT !.ps[p].conn = "down", !.ps[p].fault = TRUE, !.ps[p].want = FALSE]
-    [] k = "cut" -> [M EXCEPT !.ps[p].fault = TRUE, !.ps[p].want = FALSE, !.ps[p].mustClose = s.mustClose \/ s.open]
-    [] k = "stall" -> [M EXCEPT !.ps[p].fault = TRUE, !.ps[p].want = FALSE]
+    \* a disturbed connection explains the Closed events logged before it (the report may come late), the Closed of the
+    \* stream open now, and every Closed until the connection is reported up again; it is not counted as a cause
+    \* (the stream that is open, or that an open / Accept in progress may still bring, is lost with the connection
+    \*  even if the protocol reports it opened - and then closed - only after the next connection is up)
+    [] k = "down" -> [M EXCEPT !.ps[p].conn = "down", !.ps[p].fault = TRUE, !.ps[p].want = FALSE, !.ps[p].ucl = 0, !.ps[p].lost = s.lost \/ Doomed(s)]
+    [] k = "cut" -> [M EXCEPT !.ps[p].fault = TRUE, !.ps[p].want = FALSE, !.ps[p].mustClose = s.mustClose \/ s.open, !.ps[p].ucl = 0,
+                              !.ps[p].lost = s.lost \/ Doomed(s)]
+    [] k = "stall" -> [M EXCEPT !.ps[p].fault = TRUE, !.ps[p].want = FALSE, !.ps[p].ucl = 0, !.ps[p].lost = s.lost \/ Doomed(s)]
+    \* the remote user closed the stream / the remote side did something that ends it (told by the environment)
+    [] k \in {"rclose", "rfault"} -> Cause(M, p)
     [] OTHER -> M
 
 \* a task of the node panicked: reported once; the protocol instance is gone, nothing more is judged
@@ -136,14 +162,16 @@ MonQuiesce(M, stable) ==
            \* an open that raced with a validation the user never answered is not owed an answer
            unanswered == {p \in P : M.ps[p].want /\ ~M.ps[p].asked}
            stuck == {p \in P : M.ps[p].mustClose /\ M.ps[p].open}
+           spurious == {p \in P : M.ps[p].ucl > 0}
        IN IF unanswered # {} THEN Fail(M, CHOOSE p \in unanswered : TRUE, "open request never answered")
           ELSE IF stuck # {} THEN Fail(M, CHOOSE p \in stuck : TRUE, "stream still open after the connection was lost")
+          ELSE IF spurious # {} THEN Fail(M, CHOOSE p \in spurious : TRUE, "stream closed without a cause")
           ELSE M
 
 \* validation keeps going after a reported rule: the peer's ledger is reset to the observed facts
 Forgive(M) ==
   IF M.bad = "" THEN M
   ELSE IF M.badp = "" THEN [M EXCEPT !.bad = "", !.badp = ""]
-  ELSE [M EXCEPT !.bad = "", !.badp = "", !.ps[M.badp].want = FALSE, !.ps[M.badp].mustClose = FALSE,
+  ELSE [M EXCEPT !.bad = "", !.badp = "", !.ps[M.badp].want = FALSE, !.ps[M.badp].mustClose = FALSE, !.ps[M.badp].ucl = 0,
                  !.ps[M.badp].acc = FALSE, !.ps[M.badp].ownopen = FALSE]
 =============================================================================
